@@ -47,7 +47,10 @@ def impl_body(cfg, history, W):
                 if e[0] == 'pass':
                     model.train(bool(e[1]))
                     x = kfacrun.batch(cfg, npass, 0, rank, dtype)          # data depends on the pass index, not on the event index
-                    out = model(x)
+                    # optional mixed precision: activations (hence factors, when factor_dtype is None) are bfloat16, weights stay float32
+                    with torch.autocast('cpu', dtype=torch.bfloat16, enabled=bool(cfg.get('autocast'))):
+                        out = model(x)
+                    out = out.to(dtype)
                     (out * kfacrun.loss_weights(cfg, list(out.shape), npass, 0, rank, dtype)).sum().backward()
                     model.train(True)
                     npass += 1
@@ -99,6 +102,7 @@ def impl_body(cfg, history, W):
                 sd = p.state_dict()
                 rec['factors'] = [(None if sd['layers'][n]['A'] is None else sd['layers'][n]['A'].detach().clone(),
                                    None if sd['layers'][n]['G'] is None else sd['layers'][n]['G'].detach().clone()) for n in sd['layers']]
+                rec['factor_dtypes'] = [(None if a is None else str(a.dtype), None if g is None else str(g.dtype)) for a, g in rec['factors']]
                 rec['sd_scalars'] = {k: v for k, v in sd.items() if k != 'layers'}
             else:
                 rec['factors'] = None
